@@ -114,7 +114,7 @@ func genL2(r *rng.R, g *qgen.G, seeds []string) (*l2Case, bool) {
 	switch {
 	case r.Chance(1, 8):
 		// insert-focused stream: types with omitempty members, mostly bulk arguments
-		t := r.Pick([]string{"Omit", "Omit", "Loc", "EmbPtr", "Deep", "Person", "MS"})
+		t := r.Pick([]string{"Omit", "Omit", "OmitKinds", "OmitKinds", "Loc", "EmbPtr", "Deep", "Person", "MS"})
 		focusBulk = true
 		switch r.Intn(4) {
 		case 0:
@@ -450,6 +450,46 @@ func genL2(r *rng.R, g *qgen.G, seeds []string) (*l2Case, bool) {
 		default:
 			c.Args = append(c.Args, nil)
 			c.Note = append(c.Note, "arg-nil")
+		}
+	}
+	if r.Chance(1, 14) {
+		// a slice form ([]T, []*T, *[]T) of one or two elements in place of a T / *T
+		// argument: acceptable only if T is used inside insert expressions only
+		for i, a := range c.Args {
+			v := reflect.ValueOf(a)
+			if !v.IsValid() {
+				continue
+			}
+			if v.Kind() == reflect.Pointer && !v.IsNil() {
+				v = v.Elem()
+			}
+			t := v.Type()
+			if (t.Kind() != reflect.Struct && t.Kind() != reflect.Map) || t.Name() == "" {
+				continue
+			}
+			n := 1 + r.Intn(2)
+			var sl reflect.Value
+			if r.Chance(1, 2) {
+				sl = reflect.MakeSlice(reflect.SliceOf(t), n, n)
+				for k := 0; k < n; k++ {
+					sl.Index(k).Set(v)
+				}
+			} else {
+				sl = reflect.MakeSlice(reflect.SliceOf(reflect.PointerTo(t)), n, n)
+				for k := 0; k < n; k++ {
+					p := reflect.New(t)
+					p.Elem().Set(v)
+					sl.Index(k).Set(p)
+				}
+			}
+			c.Args[i] = sl.Interface()
+			if r.Chance(1, 5) {
+				p := reflect.New(sl.Type())
+				p.Elem().Set(sl)
+				c.Args[i] = p.Interface()
+			}
+			c.Note = append(c.Note, "arg-slice-in-place-of-T")
+			break
 		}
 	}
 	if r.Chance(1, 3) {
